@@ -1367,11 +1367,27 @@ where
                                 match plugin_result {
                                     Ok(PluginOutput::Deny(error)) => {
                                         error_response(&mut self.write, &error).await?;
+
+                                        if self.transaction_mode
+                                            && !server.in_transaction()
+                                            && !server.in_copy_mode()
+                                        {
+                                            break;
+                                        }
+
                                         continue;
                                     }
 
                                     Ok(PluginOutput::Intercept(result)) => {
                                         write_all(&mut self.write, result).await?;
+
+                                        if self.transaction_mode
+                                            && !server.in_transaction()
+                                            && !server.in_copy_mode()
+                                        {
+                                            break;
+                                        }
+
                                         continue;
                                     }
 
@@ -1479,6 +1495,16 @@ where
                                 plugin_output = None;
                                 self.forget_buffered_prepared_statements();
                                 self.reset_buffered_state();
+
+                                // Nothing ran on the server: outside a transaction it goes
+                                // back to the pool like after any other batch.
+                                if self.transaction_mode
+                                    && !server.in_transaction()
+                                    && !server.in_copy_mode()
+                                {
+                                    break;
+                                }
+
                                 continue;
                             }
 
@@ -1487,6 +1513,14 @@ where
                                 plugin_output = None;
                                 self.forget_buffered_prepared_statements();
                                 self.reset_buffered_state();
+
+                                if self.transaction_mode
+                                    && !server.in_transaction()
+                                    && !server.in_copy_mode()
+                                {
+                                    break;
+                                }
+
                                 continue;
                             }
 
